@@ -74,31 +74,19 @@ theorem length_writeTlvOpts_ip (opts : List (Nat × Bytes))
   unfold ipOptSize; rw [ipOptSize_aux opts h 0]; omega
 
 theorem tcpOptSize_aux (opts : List (Nat × Bytes))
-    (h : opts.all (fun (t, d) => if t ≤ 1 then d.isEmpty else (!d.isEmpty || t == 4)) = true) (a : Nat) :
-    opts.foldl (fun acc (t, d) => acc + 1 + (if d.length ≠ 0 ∨ t = 4 then 1 + d.length else 0)) a
+    (_h : opts.all (fun (t, d) => if t ≤ 1 then d.isEmpty else (!d.isEmpty || t == 4)) = true) (a : Nat) :
+    opts.foldl (fun acc (t, d) => acc + 1 + (if t > 1 then 1 + d.length else 0)) a
       = a + (writeTlvOpts opts).length := by
+  clear _h
   induction opts generalizing a with
   | nil => rfl
   | cons o r ih =>
     obtain ⟨t, d⟩ := o
-    simp only [List.all_cons, Bool.and_eq_true] at h
-    obtain ⟨h1, hr⟩ := h
     simp only [List.foldl_cons]
-    rw [ih hr, writeTlvOpts_cons]
+    rw [ih, writeTlvOpts_cons]
     by_cases ht : t > 1
-    · have hle : ¬ t ≤ 1 := by omega
-      simp only [hle, if_false] at h1
-      have : d.length ≠ 0 ∨ t = 4 := by
-        cases d with
-        | nil => right; simpa using h1
-        | cons x xs => left; simp
-      simp only [ht, this, if_true, List.length_cons, List.length_append]; omega
-    · have hle : t ≤ 1 := by omega
-      simp only [hle, if_true] at h1
-      have hd : d = [] := by simpa using h1
-      subst hd
-      have : ¬ (([] : Bytes).length ≠ 0 ∨ t = 4) := by simp; omega
-      simp only [ht, this, if_false, List.length_cons]; omega
+    · simp only [ht, if_true, List.length_cons, List.length_append]; omega
+    · simp only [ht, if_false, List.length_cons]; omega
 
 theorem length_writeTlvOpts_tcp (opts : List (Nat × Bytes))
     (h : opts.all (fun (t, d) => if t ≤ 1 then d.isEmpty else (!d.isEmpty || t == 4)) = true) :
